@@ -683,6 +683,12 @@ class Assembler:
                 kopen += 1
             if kopen >= fp.k_body_close:
                 raise ExtractError('lost anchor: no block after `%s` in fn %s' % (lf['block_after'], fnname))
+            if lf.get('else_branch'):
+                # the `else { .. }` block of the `if` named by the anchor
+                kc_ = m[kopen]
+                if not (s.is_id(kc_ + 1, 'else') and s.is_p(kc_ + 2, '{')):
+                    raise ExtractError('lost anchor: no else block after `%s` in fn %s' % (lf['block_after'], fnname))
+                kopen = kc_ + 2
             kw = kopen
             lf = dict(lf, k=-1)
         else:
